@@ -496,6 +496,29 @@ func expect(d den, t reflect.Type) (string, string) {
 		case "bytes", "list", "map", "object", "guid", "datetime":
 			return "E", ""
 		}
+	case k == reflect.Complex64 || k == reflect.Complex128:
+		c64 := k == reflect.Complex64
+		mk := func(f float64) string {
+			if c64 {
+				return gen.CanonOf(complex64(complex(float32(f), 0)))
+			}
+			return gen.CanonOf(complex(f, 0))
+		}
+		switch d.kind {
+		case "null":
+			return "=", mk(0)
+		case "int":
+			f, acc := new(big.Float).SetInt(d.i).Float64()
+			if acc == big.Exact && (!c64 || float64(float32(f)) == f) {
+				return "=", mk(f)
+			}
+		case "double":
+			if !c64 && !math.IsNaN(d.f) {
+				return "=", mk(d.f)
+			}
+		case "bytes", "map", "object", "guid", "datetime":
+			return "E", ""
+		}
 	case t == reflect.TypeOf(big.Int{}) || t == reflect.TypeOf((*big.Int)(nil)):
 		switch d.kind {
 		case "int":
